@@ -1,113 +1,110 @@
 package rules
 
 import (
-	"go/ast"
-	"go/token"
 	"go/types"
 
 	"osmcheck/core"
 )
 
-// c04X6: an XML marshal helper may leave without writing anything only when there is nothing to write:
-// the early `return nil` is guarded by `p == nil` on the value being written, or by `len(x.F) == 0` where F is the
-// only field of the value (the element would carry no information). Any other guard (for example "has no
-// node/way/relation") drops values that the decoder would have read back: bounds, changesets, notes, users, or an
-// allocated-but-empty block.
+// c04X6: an XML writer may leave an element out only when there is nothing to write. Decided on observed behaviour:
+// for every input that sets exactly one element field of the value, every path writes the element's own start token
+// (the root element of a type with MarshalXML, the wrapper of a create/modify/delete/old/new block); with the block
+// pointer nil nothing of the block is written and nothing is read through the pointer. A guard such as "has no
+// node/way/relation" drops values the decoder would have read back (bounds, changesets, notes, users); it shows up as
+// a path without the start token for the input that sets only, say, the bounds.
 func c04X6(r *core.R) {
-	pk := r.P.Pkg("")
-	info := pk.TypesInfo
-	// marshal functions: MarshalXML methods and the in-package functions they reach
-	set := map[*types.Func]*FuncInfo{}
-	var work []*FuncInfo
-	for _, fi := range allFuncs(pk) {
-		if fi.Obj.Name() == "MarshalXML" && fi.Obj.Type().(*types.Signature).Recv() != nil {
-			set[fi.Obj] = fi
-			work = append(work, fi)
-		}
-	}
-	for len(work) > 0 {
-		fi := work[len(work)-1]
-		work = work[:len(work)-1]
-		ast.Inspect(fi.Decl.Body, func(n ast.Node) bool {
-			if call, ok := n.(*ast.CallExpr); ok {
-				if fn := callee(info, call); fn != nil && fn.Pkg() == pk.Types && set[fn] == nil {
-					// only helpers that take or own an *xml.Encoder
-					sig := fn.Type().(*types.Signature)
-					takes := false
-					for i := 0; i < sig.Params().Len(); i++ {
-						if namedPath(sig.Params().At(i).Type()) == "encoding/xml.Encoder" {
-							takes = true
-						}
-					}
-					if takes {
-						if tf := findFunc(pk, funcName(fn)); tf != nil {
-							set[fn] = tf
-							work = append(work, tf)
-						}
-					}
-				}
-			}
-			return true
-		})
-	}
-	n := 0
-	for _, fi := range set {
-		// first emission
-		first := token.Pos(1 << 40)
-		ast.Inspect(fi.Decl.Body, func(x ast.Node) bool {
-			if call, ok := x.(*ast.CallExpr); ok {
-				fn := callee(info, call)
-				if fn != nil && (isMethod(fn, "encoding/xml.Encoder", "Encode") || isMethod(fn, "encoding/xml.Encoder", "EncodeElement") || isMethod(fn, "encoding/xml.Encoder", "EncodeToken")) && call.Pos() < first {
-					first = call.Pos()
-				}
-				if fn != nil && set[fn] != nil && call.Pos() < first {
-					first = call.Pos()
-				}
-			}
-			return true
-		})
-		for _, st := range fi.Decl.Body.List {
-			ifs, ok := st.(*ast.IfStmt)
-			if !ok || ifs.Pos() > first || len(ifs.Body.List) != 1 || ifs.Else != nil {
-				continue
-			}
-			ret, ok := ifs.Body.List[0].(*ast.ReturnStmt)
-			if !ok || len(ret.Results) != 1 {
-				continue
-			}
-			if id, ok := ast.Unparen(ret.Results[0]).(*ast.Ident); !ok || id.Name != "nil" {
-				continue
-			}
-			n++
-			c := "skip-guard@" + fi.Name()
-			be, ok := ast.Unparen(ifs.Cond).(*ast.BinaryExpr)
-			okGuard, why := false, ""
-			if ok && be.Op == token.EQL {
-				if id, isId := ast.Unparen(be.Y).(*ast.Ident); isId && id.Name == "nil" {
-					if o, _ := objOf(info, be.X).(*types.Var); o != nil {
-						if _, isPtr := o.Type().Underlying().(*types.Pointer); isPtr {
-							okGuard, why = true, "nothing is written only when `"+o.Name()+"` is nil"
-						}
-					}
-				} else if v, okc := constInt(info, be.Y); okc && v == 0 {
-					if la := lenCallArg(info, be.X); la != nil {
-						if f := fieldOf(info, la); f != nil {
-							if st, isSt := info.TypeOf(ast.Unparen(la).(*ast.SelectorExpr).X).Underlying().(*types.Struct); isSt && st.NumFields() == 1 {
-								okGuard, why = true, "nothing is written only when the value's single field "+f.Name()+" is empty"
-							}
-						}
-					}
-				}
-			}
-			if okGuard {
-				r.OK(c, ifs.Pos(), "`%s`: %s", src(r.P.Fset, ifs.Cond), why)
-			} else {
-				r.Bad(c, ifs.Pos(), "`if %s { return nil }` skips the whole element on a condition other than the value being absent: a non-nil value for which it holds (e.g. a block holding only bounds, changesets, notes or users, or an allocated empty block) is not written, so unmarshalling does not give the value back", src(r.P.Fset, ifs.Cond))
+	c03Init(r)
+	var v c04Verdicts
+	nroots := 0
+	for _, root := range c04Roots(r.P) {
+		all, _ := c04Run(r.P, root, c04AllSet, "all set")
+		writesRoot := false
+		for _, tr := range all {
+			if len(tr.rootTokens()) > 0 {
+				writesRoot = true
 			}
 		}
+		pos := root.fi.Decl.Pos()
+		classes := c04Classify(r, root)
+		if writesRoot {
+			nroots++
+			// (a) the root element itself is written whenever one field is set
+			c := "written@" + root.tname
+			n := 0
+			for _, fc := range classes {
+				targets := [][]*types.Var{fc.gopath}
+				if len(fc.inner) > 0 {
+					targets = nil
+					for _, g := range fc.inner {
+						targets = append(targets, append(append([]*types.Var{}, fc.gopath...), c04GoPathOf(g)...))
+					}
+				}
+				for _, t := range targets {
+					n++
+					s := c04RunSingle(r, root, t)
+					if s.aborted != "" {
+						v.unknown(c, pos, "%s could not be explored: %s", root.name, s.aborted)
+						continue
+					}
+					for _, tr := range s.traces {
+						switch {
+						case tr.path.End != "return":
+							v.unknown(c, c04MissPos(tr, pos), "with only %s set a path of %s ends with %s %s", c04PathString(root.tname, t), root.name, tr.path.End, tr.path.Why)
+						case !tr.hasWrapper(""):
+							v.bad(c, c04MissPos(tr, pos), "%s writes nothing (%s) although %s is set: the element is skipped on a condition other than its value being absent, so unmarshalling does not give the value back", root.name, c04ForkText(r, tr), c04PathString(root.tname, t))
+						}
+					}
+				}
+			}
+			v.ok(c, pos, "the element of %s is written on every path of each of the %d single-field inputs", root.tname, n)
+		}
+		// (b) wrapped blocks: written whenever one field of the body is set; absent (and nothing dereferenced) when nil
+		for _, fc := range classes {
+			if len(fc.inner) == 0 {
+				continue
+			}
+			fname := c04PathString(root.tname, fc.gopath)
+			c := "written@" + fname
+			for _, g := range fc.inner {
+				target := append(append([]*types.Var{}, fc.gopath...), c04GoPathOf(g)...)
+				s := c04RunSingle(r, root, target)
+				if s.aborted != "" {
+					v.unknown(c, pos, "%s could not be explored: %s", root.name, s.aborted)
+					continue
+				}
+				for _, tr := range s.traces {
+					if !tr.hasWrapper(fc.xf.Name) {
+						v.bad(c, c04MissPos(tr, pos), "%s does not write the <%s> block (%s) although %s is not nil and holds %s: the block is skipped on a condition other than the value being absent (e.g. \"has no node/way/relation\"), so its bounds, changesets, notes or users are dropped and unmarshalling does not give the value back", root.name, fc.xf.Name, c04ForkText(r, tr), fname, g.Var.Name())
+					}
+				}
+			}
+			v.ok(c, pos, "the <%s> block is written on every path of each of the %d inputs that set one field of %s", fc.xf.Name, len(fc.inner), fname)
+			if _, isPtr := fc.xf.Var.Type().Underlying().(*types.Pointer); !isPtr {
+				continue
+			}
+			ca := "absent@" + fname
+			trs, ab := c04Run(r.P, root, c04Nil(fc.gopath), "nil "+fname)
+			if ab != "" {
+				v.unknown(ca, pos, "%s could not be explored: %s", root.name, ab)
+				continue
+			}
+			for _, tr := range trs {
+				for _, e := range tr.nilderef {
+					v.bad(ca, e.Node.Pos(), "with %s nil, %s dereferences it (%s): marshalling panics", fname, root.name, e.Why)
+				}
+				if tr.path.End == "panic" {
+					v.bad(ca, tr.path.Pos, "with %s nil, a path of %s panics", fname, root.name)
+				}
+				if tr.hasWrapper(fc.xf.Name) {
+					v.bad(ca, pos, "with %s nil, %s still writes a <%s> element: it is read back as an allocated empty value, not nil", fname, root.name, fc.xf.Name)
+				}
+			}
+			v.ok(ca, pos, "with %s nil nothing of it is written and nothing is dereferenced through it", fname)
+		}
 	}
-	r.Stat("xml_marshal_functions", len(set))
-	if n == 0 {
-		r.Anchor("early `return nil` guards in the XML marshal helpers")
+	v.emit(r)
+	r.Stat("xml_roots_writing_their_element", nroots)
+	if nroots == 0 {
+		r.Anchor("MarshalXML methods of package osm that write their own start token")
 	}
 }
